@@ -247,7 +247,47 @@ def gen_history(r, d, mods):
             else:
                 text = '(require (only-in "%s" %s))\n(verif-emit (list %s))' % (mpath, " ".join(keep), " ".join("(%s %d)" % (n, x) for n in keep))
                 units.append(("only-in-from-a-module", {"module": text}, ("ok", ["(L %s)" % " ".join("i:%d" % model_call(m, n, x) for n in keep)])))
+    # two requires in ONE program, the earlier one restricted with only-in to a name that the later module provides too:
+    # the later require must bring in exactly what *it* asks for, and the first name stays the first module's
+    pairs = [(a, b, n) for a in mods for b in mods if a is not b for n in a.provided
+             if n in b.provided and [g for g in b.provided if g not in a.provided and g not in engine_visible]]
+    if pairs and r.random() < 0.8:
+        a, b, n = r.choice(pairs)
+        g = r.choice([g for g in b.provided if g not in a.provided and g not in engine_visible])
+        pa, pb = os.path.join(d, a.name + ".scm"), os.path.join(d, b.name + ".scm")
+        x = r.randint(0, 9)
+        form = r.choice(['(require (only-in "%s" %s) (only-in "%s" %s))' % (pa, n, pb, g),
+                         '(require (only-in "%s" %s))\n(require (only-in "%s" %s))' % (pa, n, pb, g),
+                         '(require (only-in "%s" %s))\n(require (prefix-in later. "%s"))' % (pa, n, pb)])
+        second = g if "later." not in form else "later." + g
+        units.append(("two-requires-in-one-program", "%s\n(verif-emit (list (%s %d) (%s %d)))" % (form, n, x, second, x),
+                      ("ok", ["(L i:%d i:%d)" % (model_call(a, n, x), model_call(b, g, x))])))
+        required |= closure(a) | closure(b)
     return units, required
+
+
+def add_macro_trio(r, d, mods, units, required, tag):
+    """A module that exports a macro by plain provide; the macro's template is the only user of a name the module imports;
+    the macro module is first compiled *indirectly* (through a module that requires it) and used directly afterwards."""
+    k = r.randint(2, 9)
+    texts = {
+        "mh%s" % tag: '(provide mh-helper%s)\n(verif-tick "mh%s")\n(define (mh-helper%s x) (* x %d))\n' % (tag, tag, tag, k),
+        "mm%s" % tag: '(require "%s")\n(provide mm-mac%s mm-f%s)\n(verif-tick "mm%s")\n(define-syntax mm-mac%s (syntax-rules () ((_ e) (mh-helper%s e))))\n(define (mm-f%s x) (+ x 1))\n' % (
+            os.path.join(d, "mh%s.scm" % tag), tag, tag, tag, tag, tag, tag),
+        "mo%s" % tag: '(require "%s")\n(provide mo-f%s)\n(verif-tick "mo%s")\n(define (mo-f%s x) (mm-f%s (+ x 1)))\n' % (
+            os.path.join(d, "mm%s.scm" % tag), tag, tag, tag, tag),
+    }
+    for name, text in texts.items():
+        m = Mod(name)
+        m.text = text
+        with open(os.path.join(d, name + ".scm"), "w") as f:
+            f.write(text)
+        mods.append(m)
+        required.add(name)
+    x = r.randint(1, 9)
+    units.append(("macro-module-compiled-indirectly", '(require "%s")\n(verif-emit (mo-f%s %d))' % (os.path.join(d, "mo%s.scm" % tag), tag, x), ("ok", ["i:%d" % (x + 2)])))
+    units.append(("macro-of-a-module-first-compiled-indirectly", '(require "%s")\n(verif-emit (list (mm-mac%s %d) (mm-f%s %d)))' % (
+        os.path.join(d, "mm%s.scm" % tag), tag, x, tag, x), ("ok", ["(L i:%d i:%d)" % (x * k, x + 1)])))
 
 
 def main(tier):
@@ -266,6 +306,15 @@ def main(tier):
         os.makedirs(d, exist_ok=True)
         mods = gen_graph(r, d, r.randint(2, 8))
         units, required = gen_history(r, d, mods)
+        if g % 3 == 0:
+            add_macro_trio(r, d, mods, units, required, "")
+        if g % 3 == 1:
+            # module files whose modification time lies in the future (a clock that was set back, a file from another
+            # machine): still instantiated exactly once
+            import time
+            future = time.time() + 3600
+            for m in mods:
+                os.utime(os.path.join(d, m.name + ".scm"), (future, future))
         graphs.append((d, mods, units, required))
     configs = [("default", {}), ("nojit", {"STEEL_JIT": "false"}), ("module-inline", {"STEEL_MODULE_INLINE": "1"})]
     for cname, env in configs:
